@@ -279,7 +279,7 @@ def spec_ideal(expect_lat, expect_norm, O, what, check_index=True):
             return "%s: returned lattice differs from the mathematically defined one" % what
         if (raw[0], raw[1]) != (can[0], can[1]):
             return "%s: returned basis is not in Hermite normal form with reduced positive denominator" % what
-        if nrm != expect_norm:
+        if expect_norm is not None and nrm != expect_norm:
             return "%s: stored norm %s, expected %s" % (what, hx(nrm), hx(expect_norm))
         if check_index and Fr(nrm * nrm) != Q.index(can, O):
             return "%s: stored norm squared differs from the index [O:I]" % what
